@@ -582,6 +582,12 @@ type PyObjRef = *aPyObjRef
 // PyNewFunc creates a new python function.
 func (p Package) PyNewFunc(name string, sig *types.Signature, doInit bool) PyObjRef {
 	if v, ok := p.pyobjs[name]; ok {
+		if psig, ok := v.raw.Type.(*types.Pointer); ok && !types.Identical(psig.Elem(), sig) {
+			// same Python function bound under another Go signature (e.g. math.Log / math.LogOf):
+			// share the symbol variable, but call it with THIS declaration's parameters.
+			ty := &aType{v.Obj.ll, rawType{types.NewPointer(sig)}, vkPyFuncRef}
+			return &aPyObjRef{Expr{v.Obj.impl, ty}, v.Obj}
+		}
 		return v
 	}
 	prog := p.Prog
